@@ -455,7 +455,7 @@ func fillEquivalence(p *Prog, r *Rule, res *productResult, impl *ssa.Function, w
 
 func checkC01(p *Prog, rp *Report) {
 	rp.Level = "proof"
-	rp.Explanation = "C01-RUN: the run comparator reached from version.Compare is interpreted abstractly (SSA, lazily revealed input strings of unbounded length over the 70 admitted bytes + END) in lock step with a transliteration of dpkg's verrevcmp; every pair of returns reachable in the product must agree in sign, no panic, no loop that stops consuming input. C01-W: the weight function's preorder on the alphabet equals dpkg's order(). C01-SEQ: Compare = epoch, then upstream, then revision, first non-zero wins, operands in order."
+	rp.Explanation = "C01-RUN: the run comparator reached from version.Compare is interpreted abstractly (SSA, lazily revealed input strings of unbounded length over the 70 admitted bytes + END) in lock step with a transliteration of dpkg's verrevcmp; every pair of returns reachable in the product must agree in sign, no panic, no loop that stops consuming input. C01-W: the weight function's preorder on the alphabet equals dpkg's order(). C01-SEQ: Compare = epoch, then upstream, then revision, first non-zero wins, operands in order. C01-SORT: Len and Swap of the sort adapter on a three-element slice; Less(i,j) for all 100 pairs of ten concrete versions (epochs, equal elements, upstreams that are equal under dpkg but spelled differently, leading zeros, tilde, empty parts) equals \"sorts strictly before\" in the reference order."
 	rp.NotDecided = "nothing beyond the trusted base."
 	rp.Trusted = []string{"go/types, go/ssa (x/tools v0.29.0) represent the source", "refs/dpkgorder is a faithful transliteration of dpkg lib/dpkg/version.c", "soundness of the lazy-tape abstraction: tape bytes are only indexed/compared, cursors only move forward (checked per run)"}
 
